@@ -64,6 +64,8 @@ def streams(tier, rng):
             cut.append(c)
     return [
         L.make_stream("c19-corpus", "c19", L.corpus("C19")),
+        L.make_stream("c19-precision-zero-panics", "c19", L.corpus("loop"), sb=False,
+                      describe="precision override 0: `slowest / precision` panics (DivByZero) in the crate and in the model; outside the property"),
         L.make_stream("c19-threshold", "c19", thr, hist=L.histogram(thr),
                       describe="slowest/precision of some round exactly at 100 / 101"),
         L.make_stream("c19-random-costs", "c19", rand, hist=L.histogram(rand),
@@ -71,3 +73,25 @@ def streams(tier, rng):
         L.make_stream("c19-max-time-cuts-tuning", "c19", cut, hist=L.histogram(cut),
                       describe="max_time at the elapsed time of some (tuning) round"),
     ]
+
+
+MANIFEST = {
+    "text": "Coq theorems about the same model of bench_loop_threaded with sample_size unset, for every history: round i has size 2^i while no "
+            "earlier round's slowest sample exceeded 100 whole multiples of the precision, and 2^j0 from the first such round j0 on "
+            "(C19_tune_sequence); samples, allocation map and per-input counts hold exactly what recording the rounds from j0 on (or only "
+            "the newest round while none has passed) into empty collections gives, all at the final size (C19_discard_earlier); the round "
+            "that first passes counts against sample_count: with no binding time limit exactly j0 + ceil(n/T) rounds run and T*ceil(n/T) "
+            "samples are reported (C19_threshold_round_counts); max_time also stops tuning rounds (C19_max_time_covers_tuning); the checked "
+            "u32 doubling cannot overflow within 31 rounds and does at 32 (C19_no_overflow_below_2_31, C19_doubling_overflows_example); the "
+            "boolean specification holds of the model for every history (C19_model_sb). Threshold (<= 100) and factor (2) are generated "
+            "from the source (C19_loop_consts).",
+    "note": "All theorems full strength, closed under the global context. Timer::precision() is an input (override hook H3; its measurement "
+            "is C11's); precision 0 is a modelled panic (DivByZero) outside the property. Trusted: Coq kernel, extraction, OCaml driver, hooks, "
+            "hx-loop (AllocProfiler as global allocator, scripted allocations), the model as validated by the correspondence streams.",
+    "technique": "machine-checked proof in Coq + history-driven differential correspondence (threshold-aimed scripts, costs far below to far "
+                 "above the precision, max_time cutting tuning) + extracted specification on implementation outputs",
+}
+
+
+def shrink(item, rerun_case):
+    return L.shrink_item(item, rerun_case)
